@@ -170,7 +170,7 @@ func c07Uncovered() []string {
 
 // c07Setup opens an engine with data in every layer: 2 level-0 files, an immutable table waiting for flush, an active table.
 func c07Setup(dir string, controlled bool) (*c07Env, func(), error) {
-	cfg := EngCfg{"c07", 32 << 20, 2, 0}
+	cfg := EngCfg{"c07", 32 << 20, 2, 0, 0}
 	r, err := newEngRun(dir, cfg)
 	if err != nil {
 		return nil, nil, err
